@@ -356,6 +356,9 @@ def wall_shape(rng):
         return m, lp, []
     if m == 'gable':
         w, h = G.dy(rng.uniform(3, 12)), G.dy(rng.uniform(2, 5)); t = G.dy(rng.uniform(0.5, 3))
+        if rng.random() < 0.35:
+            # a hall-sized gable with a shallow ridge: the ridge rises by 0.1..0.6 % of the width (tens to hundreds of tolerances)
+            w, h = G.dy(rng.uniform(300, 3000)), G.dy(rng.uniform(100, 900)); t = G.dy(w * rng.uniform(0.001, 0.006))
         lp = [(0.0, 0.0), (w, 0.0), (w, h), (G.dy(w * rng.choice([0.5, 0.3, 0.7])), h + t), (0.0, h)]
         which = rng.choice(['peak_up', 'peak_up', 'peak_down', 'pointed_left', 'pointed_right'])
         if which == 'peak_down': lp = [(x, h + t - y) for x, y in lp][::-1]
@@ -389,7 +392,7 @@ def fam_sub_faces(ctx, rng):
     h3 = [[P3(G.embed(frame, origin, p)) for p in h] for h in holes]
     face = Face3D(b3, holes=h3) if h3 else Face3D(b3)
     ratio = G.dy(rng.uniform(0.01, 0.95), 8)
-    which = rng.choice(['ratio', 'ratio', 'rectangle'])
+    which = rng.choice(['ratio', 'ratio', 'rectangle'] if max(abs(c) for p in loop for c in p) < 100 else ['ratio', 'rectangle', 'rectangle', 'rectangle'])
     desc = {'shape': m, 'boundary': loop, 'holes': holes, 'frame': frame, 'origin': origin, 'ratio': ratio, 'routine': which, 'plane': fcls}
     ctx.count('sub_faces.' + which, key=(m, fcls, round(ratio, 1)), sample=desc)
     kind = 'sub_faces.%s:%s' % (which, m)
